@@ -39,6 +39,14 @@ Print Assumptions C02_parse_alloc_linear.
 Example C02_KA_is_128 : KA = 128.
 Proof. reflexivity. Qed.
 
+(* totality: the parse ends with a Message or with an error status, nothing else; and a Message that comes out is well
+   shaped at every nesting level: every item has the kind and exact width its field's type code calls for (bools are
+   0/1), strings and field names hold no NUL, what-codes and type codes are 32-bit values *)
+Theorem C02_parse_total : forall bs, fits bs ->
+  (exists m, result_of (unflatten_i bs fixed) = Ok m /\ shape_msg m) \/ result_of (unflatten_i bs fixed) = Err.
+Proof. exact parse_total_proof. Qed.
+Print Assumptions C02_parse_total.
+
 (* the reader never ends beyond the buffer *)
 Theorem C02_parse_consumed : forall bs, fits bs -> consumed (unflatten_i bs fixed) <= len bs.
 Proof. exact parse_consumed_proof. Qed.
